@@ -307,10 +307,22 @@ pub fn generate(seed: u64, stream: &str, index: u64, cfg: &GenCfg) -> SysSpec {
                 if let Ty::Arr(iw, dw) = t {
                     let idx = random_expr(&mut rng, Ty::BV(*iw), 1, &all, false, cfg.max_width);
                     let dat = random_expr(&mut rng, Ty::BV(*dw), 2, &all, false, cfg.max_width);
-                    next = Some(Sh::Op(Op::ArrayStore, [0, 0], vec![Sh::Sym(STATE_BASE + i as u8, *t), idx, dat]));
+                    let me = Sh::Sym(STATE_BASE + i as u8, *t);
+                    let store = Sh::Op(Op::ArrayStore, [0, 0], vec![me.clone(), idx, dat]);
                     if init.is_none() || rng.chance(1, 2) {
                         init = Some(Sh::Op(Op::ArrayConst, [*iw, *dw], vec![Sh::Lit(*dw, BigUint::from(rng.next() % 8))]));
                     }
+                    // memory idioms: plain write, write enable (active high / active low), synchronous clear
+                    let we = random_expr(&mut rng, Ty::BV(1), 1, &all, false, cfg.max_width);
+                    next = Some(match rng.below(5) {
+                        0 | 1 => store,
+                        2 => Sh::Op(Op::ArrayIte, [0, 0], vec![we, store, me]),
+                        3 => Sh::Op(Op::ArrayIte, [0, 0], vec![we, me, store]),
+                        _ => match init.clone() {
+                            Some(clear @ Sh::Op(Op::ArrayConst, ..)) => Sh::Op(Op::ArrayIte, [0, 0], vec![we, clear, store]),
+                            _ => store,
+                        },
+                    });
                 }
             }
             "counter-deep" if i == 0 => {
